@@ -781,9 +781,17 @@ func c08RunInt(t *testing.T, ops []string, o *Out) {
 			}
 			return 0, nil
 		})
+		// a blocking transport: when an `adv` is directly followed by `rtp`, the interceptor's Read is entered
+		// first and the wrapped reader returns the packet only after the time has passed (gate)
+		var gate chan struct{}
 		source := interceptor.RTPReaderFunc(func(b []byte, a interceptor.Attributes) (int, interceptor.Attributes, error) {
+			if g := gate; g != nil {
+				<-g
+			}
 			return copy(b, pending), a, nil
 		})
+		pendMs := -1
+		closedSeen := false
 		flush := func() {
 			for _, rep := range reports {
 				if rep == nil {
@@ -814,6 +822,13 @@ func c08RunInt(t *testing.T, ops []string, o *Out) {
 			if icpt == nil {
 				o.P("bad-op")
 				continue
+			}
+			isRTP := scan(op, "rtp ssrc=%d seq=%d", &a, &b) && a >= 0 && a < 1<<32 && b >= 0 && b < 65536
+			if pendMs >= 0 && !isRTP {
+				time.Sleep(time.Duration(pendMs) * time.Millisecond)
+				synctest.Wait()
+				flush()
+				pendMs = -1
 			}
 			switch {
 			case op == "writer":
@@ -847,10 +862,22 @@ func c08RunInt(t *testing.T, ops []string, o *Out) {
 				done := make(chan struct{})
 				var n int
 				var rerr error
+				if pendMs >= 0 {
+					gate = make(chan struct{})
+				}
 				go func() {
 					defer close(done)
 					n, _, rerr = rd.Read(make([]byte, 1500), nil)
 				}()
+				if pendMs >= 0 {
+					synctest.Wait()
+					time.Sleep(time.Duration(pendMs) * time.Millisecond)
+					synctest.Wait()
+					flush()
+					pendMs = -1
+					close(gate)
+					gate = nil
+				}
 				synctest.Wait()
 				select {
 				case <-done:
@@ -864,10 +891,9 @@ func c08RunInt(t *testing.T, ops []string, o *Out) {
 					blocked = append(blocked, done)
 				}
 			case scan(op, "adv ms=%d", &a) && a >= 0 && a <= 100000000:
-				time.Sleep(time.Duration(a) * time.Millisecond)
-				synctest.Wait()
-				flush()
+				pendMs = a
 			case op == "close":
+				closedSeen = true
 				_ = icpt.Close()
 				synctest.Wait()
 				rel := 0
@@ -887,7 +913,12 @@ func c08RunInt(t *testing.T, ops []string, o *Out) {
 				o.P("bad-op")
 			}
 		}
-		if len(blocked) > 0 {
+		if pendMs >= 0 && icpt != nil {
+			time.Sleep(time.Duration(pendMs) * time.Millisecond)
+			synctest.Wait()
+			flush()
+		}
+		if len(blocked) > 0 && closedSeen { // without Close a Read may legitimately still wait for the loop
 			o.P("LEAK %d Read calls still blocked at the end of the case", len(blocked))
 		}
 	})
